@@ -63,11 +63,21 @@ def cli_cases(chk, seed, n):
             extra = []
             if r.random() < 0.5:
                 extra += [b"--name", fse(r.choice(["*", "f?", "it's", "a b", "$x", "~", "#c", "ż*", "{f1,f2}"]))]
+            if r.random() < 0.25:
+                # a command line far longer than any buffer: thousands of arguments (a glob expanded by the shell, xargs),
+                # or a single one just below the kernel's limit of 128 KiB per argument
+                if r.random() < 0.5:
+                    for k in range(r.choice([1500, 2500, 4000])):
+                        extra += [b"--exclude", fse("/no/such dir %d/%s/**" % (k, r.choice(["it's", "a b", "$x", "ż", "pl ain"])))]
+                else:
+                    extra += [b"--exclude", fse("/no such/" + "".join(r.choice(["x", "y ", "'", "ż", "$"]) for _ in range(r.choice([50000, 60000, 85000]))))]
+                chk.count("cli_command_lines_longer_than_64KiB")
             home = os.path.join(d, "home")
             for fmt in ("default", "json"):
                 argv = [fse(common.fclones_bin()), b"group", b"-f", fmt.encode()] + extra + roots
                 res = common.run(argv, common.pinned_env(home), cwd=troot)
-                witness = {"argv": [fsd(a) for a in argv], "cwd": troot, "rc": res.rc, "stderr": res.err_text()[-800:]}
+                witness = {"argv": [fsd(a) for a in argv] if len(argv) < 200 else [fsd(a) for a in argv[:40]] + ["... %d arguments" % len(argv)],
+                           "cwd": troot, "rc": res.rc, "stderr": res.err_text()[-800:]}
                 if res.rc != 0:
                     chk.note_inconclusive("cli group failed: " + res.err_text()[-100:])
                     continue
@@ -96,7 +106,17 @@ def cli_cases(chk, seed, n):
                         witness["header_command"] = [fsd(a) for a in rep.header["command"]]
                         chk.violation("C17:cli:json-command-differs", "JSON header command differs from argv", witness)
                         continue
-                chk.ok(("cli", i, fmt), {"argv": [fsd(a) for a in argv]} if i < 2 else None)
+                # the consumer of the recorded command line: a dedupe command must read the report back
+                back = common.run([fse(common.fclones_bin()), b"remove", b"--dry-run"], common.pinned_env(home), cwd=troot, stdin=res.out)
+                if back.rc != 0:
+                    witness["argv"] = witness["argv"][:40]
+                    witness["remove_dry_run"] = {"rc": back.rc, "stderr": back.err_text()[-600:]}
+                    chk.violation("C17:cli:recorded-command-not-read-back",
+                                  "`remove --dry-run` rejects the %s report of this command line (%d arguments, %d bytes): %s"
+                                  % (fmt, len(argv), sum(len(a) + 1 for a in argv), back.err_text()[-200:]), witness,
+                                  nontrivial_sig=("cli", i, fmt))
+                    continue
+                chk.ok(("cli", i, fmt), {"argv": [fsd(a) for a in argv[:40]]} if i < 2 else None)
                 chk.count("cli_reports_checked")
     finally:
         scratch.cleanup()
